@@ -154,6 +154,11 @@ class GroupBy:
 
         from orso.dataframe import DataFrame
 
+        if not result_set:
+            # no groups (no rows): there is no first dictionary to take the columns from
+            header = [f"{func}({col})" for func, col in aggregations]
+            header.extend(str(column) for column in self._columns)
+            return DataFrame(rows=[], schema=list(dict.fromkeys(header)))
         return DataFrame(result_set)
 
     def max(self, columns) -> "DataFrame":
@@ -238,4 +243,9 @@ class GroupBy:
 
         from orso.dataframe import DataFrame
 
+        if not self._group_keys:
+            # no groups (no rows): there is no first dictionary to take the columns from
+            return DataFrame(
+                rows=[], schema=list(dict.fromkeys(str(column) for column in self._columns))
+            )
         return DataFrame(dict(self._group_keys[group]) for group in self._group_keys)
